@@ -982,8 +982,13 @@ LEVEL = "other"
 ENGINES = ["E1-pyvc", "E3-E4-rtc"]
 LEVEL_TEXT = ("Mixed. Proved (E1-term, Choi-matrix branch, over callee contracts): is_positive, is_herm_preserving, is_completely_positive, is_trace_preserving and "
               "is_quantum_channel reduce to the stated matrix predicates with rtol / atol / sys / dim reaching the same-named parameters of their callees. Every verdict against "
-              "constructed ground truth, every built-in channel formula and the tolerance semantics are bounded run-time contract checks.")
+              "constructed ground truth, the remaining built-in channel formulas and the tolerance semantics are bounded run-time contract checks. Also proved (E1-array/bilinear, "
+              "all dimensions d and all parameter values p): depolarizing, dephasing and reduction return their textbook Choi matrices, and - composed with apply_channel's "
+              "postcondition - act as X -> (1-p) Tr(X) I/d + p X, X -> (1-p) diag(X) + p X, X -> k Tr(X) I - X.")
 EXPLANATION = LEVEL_TEXT
+from props.C06_bilinear import ASSUMED as _BIL_ASSUMED  # noqa: E402
+
+ASSUMPTIONS = list(ASSUMPTIONS) + list(_BIL_ASSUMED)
 TECHNIQUE = "formula contracts over callee contracts (E1-term, z3) for the predicate plumbing + bounded run-time-checked contracts with ground truth by construction"
 
 
